@@ -49,6 +49,7 @@ class Stats:
         self.reach_fail = 0
         self.nonzero_assumed = 0
         self.sqrt_introduced = 0
+        self.fresh_queries = 0
         self.left = 0
         self.max_pc = 0
 
@@ -92,6 +93,7 @@ class PathCtx:
         self.hidden: list = []
         self.dim_violations: list = []
         self.dim_tracked = False
+        self.fresh_mode = False
 
     def dim_violation(self, what, xs):
         if len(self.dim_violations) < 20:
@@ -103,16 +105,35 @@ class PathCtx:
 
     # --- solver plumbing
     def _check(self, *extra):
+        """satisfiability of assumptions ∧ pc ∧ extra.
+
+        The incremental solver (push/pop) is fast for linear problems but z3 only uses its
+        complete non-linear engine (nlsat) on a fresh, non-incremental solver; so ``fresh`` mode
+        (set by non-linear scenarios) or an ``unknown`` answer re-decides the query from scratch.
+        """
         t0 = time.time()
-        if extra:
-            self.solver.push()
-            self.solver.add(*extra)
-        r = str(self.solver.check())
+        r = "unknown"
         m = None
-        if r == "sat":
-            m = self.solver.model()
-        if extra:
-            self.solver.pop()
+        if not self.fresh_mode:
+            if extra:
+                self.solver.push()
+                self.solver.add(*extra)
+            r = str(self.solver.check())
+            if r == "sat":
+                m = self.solver.model()
+            if extra:
+                self.solver.pop()
+        if r == "unknown":
+            s2 = z3.Solver()
+            s2.set("timeout", self.query_timeout_ms)
+            s2.add(*self.assumptions)
+            s2.add(*self.pc)
+            if extra:
+                s2.add(*extra)
+            r = str(s2.check())
+            if r == "sat":
+                m = s2.model()
+            self.stats.fresh_queries = getattr(self.stats, "fresh_queries", 0) + 1
         self.stats.queries[r] = self.stats.queries.get(r, 0) + 1
         self.stats.solver_s += time.time() - t0
         return r, m
@@ -378,6 +399,10 @@ class SymEnv:
     def const(self, x):
         return SymReal.const(x)
 
+    def nonlinear(self, on=True):
+        """decide all further queries of this path on fresh solvers (nlsat)"""
+        self.p.fresh_mode = bool(on)
+
     def assume(self, cond):
         if isinstance(cond, (bool, np.bool_)):
             if not cond:
@@ -440,9 +465,12 @@ class SymEnv:
                 exact.append(d == 0)
         if cl and self.exact_first_ms and not info:
             # exact polynomial identities are decided much faster than their tolerance form
+            saved = self.p.query_timeout_ms
+            self.p.query_timeout_ms = self.exact_first_ms
             self.p.solver.set("timeout", self.exact_first_ms)
             r, _ = self.p._check(z3.Not(z3.And(*exact)))
-            self.p.solver.set("timeout", self.p.query_timeout_ms)
+            self.p.query_timeout_ms = saved
+            self.p.solver.set("timeout", saved)
             if r == "unsat":
                 st = self.p.stats
                 st.obligations += 1
@@ -567,6 +595,9 @@ class ConcEnv:
 
     def const(self, x):
         return float(x)
+
+    def nonlinear(self, on=True):
+        pass
 
     def assume(self, cond):
         if not bool(cond):
